@@ -159,6 +159,39 @@ func newSandbox(ctx *core.Ctx, name string, r *core.Rand) (*sandbox, error) {
 	return sb, nil
 }
 
+// repair puts the exported tree back in shape: a hostile session that reached a directory of the tree itself (by "."
+// or a name that resolves inside) has every right to rename it or change its mode, and the sessions after it still
+// need the directories they start from. Returns whether anything had to be put back.
+func (sb *sandbox) repair() bool {
+	fixed := false
+	for _, d := range []string{"", "a", "a/b", "a/b/c", "pub"} {
+		p := filepath.Join(sb.root, d)
+		if fi, err := os.Lstat(p); err != nil || !fi.IsDir() {
+			_ = os.RemoveAll(p)
+			_ = os.MkdirAll(p, 0o755)
+			fixed = true
+		}
+		_ = os.Chmod(p, 0o755)
+	}
+	for _, f := range []string{"hello.txt", "a/in-a.txt", "a/b/in-b.txt", "a/b/c/in-c.txt", "pub/readme"} {
+		p := filepath.Join(sb.root, f)
+		if fi, err := os.Lstat(p); err != nil || !fi.Mode().IsRegular() {
+			_ = os.RemoveAll(p)
+			_ = os.WriteFile(p, []byte("public data "+f), 0o644)
+			fixed = true
+		}
+	}
+	for l, t := range map[string]string{"a/link-up-inside": "../hello.txt", "self": ".", "a/up-root": "..", "a/b/up-root": "../..", "a/b/c/up-root": "../../..", "pub/up-root": ".."} {
+		p := filepath.Join(sb.root, l)
+		if got, err := os.Readlink(p); err != nil || got != t {
+			_ = os.RemoveAll(p)
+			_ = os.Symlink(t, p)
+			fixed = true
+		}
+	}
+	return fixed
+}
+
 // evilNames: the grammar of hostile names, given the absolute path of the sandbox.
 func evilNames(sb *sandbox, depth int) []string {
 	// "../" chains climb at most to S (depth+2 levels above the current directory): the server under test runs as
@@ -370,6 +403,9 @@ func c18Run(ctx *core.Ctx, family string, dotu bool, thorough bool, spelling str
 		checkOutside(how)
 	}
 	open := func() *rawc {
+		if sb.repair() {
+			res.Count("sandbox_tree_repairs", 1)
+		}
 		rc := e.s.Dial()
 		ver := "9P2000"
 		if dotu {
